@@ -43,3 +43,20 @@ def validate_cases(rng, n):
         cs = [dict(k=k, n=rng.randint(0, 6)) for k in rng.sample(kinds, rng.randint(0, 3))]
         out.append(dict(kind="validate", val=str(rng.randint(0, 8)), cons=cs))
     return out
+
+
+def struct_validate_cases(rng, n):
+    kinds = ["required", "min", "max", "eq"]
+    out = []
+    for v in range(0, 4):
+        for k in kinds:
+            for m in ([0] if k == "required" else range(0, 4)):
+                out.append(dict(kind="vstruct", val=str(v), cons=[dict(k=k, n=m)]))
+    for _ in range(n):
+        cs = [dict(k=k, n=rng.randint(0, 6)) for k in rng.sample(kinds, rng.randint(1, 3))]
+        out.append(dict(kind="vstruct", val=str(rng.randint(0, 8)), cons=cs))
+    return out
+
+
+def missing_cases():
+    return [dict(kind="missing", tag=t, ftype=ft, required=r) for t in ("value", "prop", "prefix") for ft in FTYPES for r in (True, False)]
